@@ -106,6 +106,11 @@ def cases(ctx):
                         "src": f"*={org:#08x}\nwidth := 2\n" + (w % inner) + ".db width\n.for zz_ak := 0, width {\n.db 0xDD\n}\n",
                         "twin_src": f"*={org:#08x}\nwidth := 2\n" + (w % inner.replace("width", "zz_inner_w")).replace(".db width", ".db width")
                                     + ".db width\n.for zz_ak := 0, width {\n.db 0xDD\n}\n"})
+        # `:=` directly in a loop body without any nested construct, several iterations: bound anew in every iteration
+        out.append({"kind": "assign-shadow:for-flat", "rom": rom, "spec": {"t": "twin", "labels": False},
+                    "src": f"*={org:#08x}\nstride := 2\n.for zz_i := 0, 4 {{\nstride := 8\n.db 0x40 + zz_i * stride\n}}\n.for zz_j := 0, 3 {{\n.db 1 + zz_j * stride\n}}\n",
+                    "twin_src": f"*={org:#08x}\n.db 0x40, 0x48, 0x50, 0x58\n.db 1, 3, 5\n"})
+        # (a `:=` whose value uses the loop counter is refused: the counter is bound when the passes run, DESIGN S.6)
         # `.if` / `else` open no scope: a name defined in either branch belongs to the scope the .if is written in
         for cond, val in (("0", 0x20), ("1", 0x40)):
             out.append({"kind": f"if-branch-no-scope:{cond}", "rom": rom, "spec": {"t": "twin", "labels": False},
